@@ -79,6 +79,21 @@ def _num(node, src, mode):
     raise TranslateError("unsupported numeric expression: %s" % ast.dump(node))
 
 
+def _wexpr(node, src):
+    """Coq text of the weight expression in the language of coq/Model/C19_Weights.v (literals as exact rationals)"""
+    if isinstance(node, ast.Constant) and type(node.value) in (int, float):
+        fr = Fraction(ast.get_source_segment(src, node).replace("_", ""))
+        return "(WLit (Qmake %s %d))" % ("(%d)" % fr.numerator if fr.numerator < 0 else "%d" % fr.numerator, fr.denominator)
+    if isinstance(node, ast.UnaryOp) and isinstance(node.op, ast.USub):
+        return "(WNeg %s)" % _wexpr(node.operand, src)
+    if isinstance(node, ast.UnaryOp) and isinstance(node.op, ast.UAdd):
+        return _wexpr(node.operand, src)
+    if isinstance(node, ast.BinOp) and isinstance(node.op, (ast.Add, ast.Sub, ast.Mult, ast.Div)):
+        name = {ast.Add: "WAdd", ast.Sub: "WSub", ast.Mult: "WMul", ast.Div: "WDiv"}[type(node.op)]
+        return "(%s %s %s)" % (name, _wexpr(node.left, src), _wexpr(node.right, src))
+    raise TranslateError("unsupported numeric expression: %s" % ast.dump(node))
+
+
 def _str(node):
     if isinstance(node, ast.Constant) and isinstance(node.value, str):
         if not node.value.isascii():
@@ -147,13 +162,15 @@ def translate(path):
                         stmts.append({"kind": "element", "attr": attr, "name": _str(v.args[0]),
                                       "symbol": _str(v.args[1]), "Z": _int(v.args[2]),
                                       "w": float(_num(v.args[3], src, "float")),
-                                      "w_exact": _num(v.args[3], src, "exact"), "line": lineno})
+                                      "w_exact": _num(v.args[3], src, "exact"), "w_expr": _wexpr(v.args[3], src),
+                                      "line": lineno})
                         continue
                     if v.func.id == "Isotope" and len(v.args) == 5 and isinstance(v.args[2], ast.Name):
                         stmts.append({"kind": "isotope", "attr": attr, "name": _str(v.args[0]),
                                       "symbol": _str(v.args[1]), "elem_attr": v.args[2].id,
                                       "A": _int(v.args[3]), "w": float(_num(v.args[4], src, "float")),
-                                      "w_exact": _num(v.args[4], src, "exact"), "line": lineno})
+                                      "w_exact": _num(v.args[4], src, "exact"), "w_expr": _wexpr(v.args[4], src),
+                                      "line": lineno})
                         continue
             raise TranslateError("line %d: module-level statement of an unknown form: %s" % (lineno, src.strip()[:120]))
     names = [c for c, _ in index_calls]
